@@ -444,6 +444,9 @@ def run(ck, prog):
     ck.doc('C03.R2', 'batch processors/periodic reader: Export call sites reachable only from the single worker thread entry', 6)
     ck.doc('C03.R3', 'every reaching definition of the count passed to Consume is bounded by max_export_batch_size', 2)
     ck.doc('C03.R4', 'Export is dominated by the non-zero outcome of a test of the batch count', 2)
+    ck.doc('C01.R3', '(shared rule, see C01) the container handed to Export is filled by this batch\'s Consume only (fresh per batch)', 8)
+    ck.doc('C01.R4', '(shared rule, see C01) count handed to Consume derives from size() of the same queue / the batch bound', 2)
+    from . import c01
     cg = CallGraph(prog)
     # canaries first: each rule must flag its seeded bad shape
     with ck.canary('C03.R1'):
@@ -462,6 +465,8 @@ def run(ck, prog):
         rule_r2(ck, prog, cg, roles)
         rule_r2_single_worker(ck, prog, cg, roles)
         rule_r3_r4(ck, prog, cg, roles)
+        # the bound on the count only bounds the batch if the container handed to Export holds nothing else (see C01.R3)
+        c01.rule_r3_r4(ck, prog, cg, roles)
     pr = Roles(prog, 'sdk::metrics::PeriodicExportingMetricReader', flush_method='OnForceFlush',
                shutdown_method='OnShutDown', cg=cg)
     rule_r2(ck, prog, cg, pr)
